@@ -1307,6 +1307,9 @@ func (client *client) reAuthHandler(auth *packets.Auth) *codes.Error {
 func (client *client) disconnectHandler(dis *packets.Disconnect) *codes.Error {
 	if client.version == packets.Version5 {
 		disExpiry := convertUint32(dis.Properties.SessionExpiryInterval, 0)
+		// The session is shared with the other connections of this client id (take over) and is modified under srv.mu.
+		client.server.mu.Lock()
+		defer client.server.mu.Unlock()
 		sess, err := client.server.sessionStore.Get(client.opts.ClientID)
 		if err != nil {
 			return &codes.Error{
